@@ -177,10 +177,32 @@ pub struct RecDriver {
     pub shared: Rc<RefCell<Shared>>,
     sig_objs: Vec<Signal>,
     unknown: Signal,
+    /// per configured signal: its three look-alikes (other type / other width / other default)
+    twins: Vec<Vec<Signal>>,
     override_write: bool,
     /// per-call storage for the signals handed out (only used with `rebuild_signals`)
     buf: Vec<Signal>,
     rebuild_signals: bool,
+}
+
+/// A signal with the name of `s` that is not `s`: another type, another width or another default.
+fn twin_of(s: &Signal, k: u8) -> Signal {
+    use digital_test_runner::{InputValue, SignalType};
+    let mut t = s.clone();
+    let other_bits = if s.bits >= 64 { 63 } else { s.bits + 1 };
+    match (k, &s.typ) {
+        (0, SignalType::Bidirectional { default }) => t.typ = SignalType::Input { default: *default },
+        (0, SignalType::Output) => t.typ = SignalType::Bidirectional { default: InputValue::Z },
+        (0, SignalType::Input { default }) => t.typ = SignalType::Bidirectional { default: *default },
+        (2, SignalType::Bidirectional { default }) => {
+            t.typ = SignalType::Bidirectional { default: if *default == InputValue::Z { InputValue::Value(0) } else { InputValue::Z } }
+        }
+        (2, SignalType::Input { default }) => {
+            t.typ = SignalType::Input { default: if *default == InputValue::Z { InputValue::Value(0) } else { InputValue::Z } }
+        }
+        _ => t.bits = other_bits,
+    }
+    t
 }
 
 impl RecDriver {
@@ -193,6 +215,7 @@ impl RecDriver {
             })),
             sig_objs: cfg.iter().map(to_signal).collect(),
             unknown: Signal::output("__unknown_to_the_test__", 8),
+            twins: cfg.iter().map(to_signal).map(|s| (0..3).map(|k| twin_of(&s, k)).collect()).collect(),
             override_write: script.override_write,
             buf: vec![],
             rebuild_signals: script.rebuild_signals,
@@ -232,7 +255,7 @@ impl RecDriver {
                             (
                                 match s {
                                     DevSig::Cfg(i) => *i,
-                                    DevSig::Unknown => usize::MAX,
+                                    DevSig::Unknown | DevSig::Twin(..) => usize::MAX,
                                 },
                                 *v,
                             )
@@ -264,6 +287,7 @@ impl TestDriver for RecDriver {
                         self.buf.push(match s {
                             DevSig::Cfg(i) => self.sig_objs[*i].clone(),
                             DevSig::Unknown => self.unknown.clone(),
+                            DevSig::Twin(i, k) => self.twins[*i][*k as usize % 3].clone(),
                         });
                     }
                     Ok(o.into_iter().enumerate().map(|(k, (_, v))| OutputEntry { signal: &self.buf[k], value: to_out(v) }).collect())
@@ -279,6 +303,7 @@ impl TestDriver for RecDriver {
                     signal: match s {
                         DevSig::Cfg(i) => &this.sig_objs[i],
                         DevSig::Unknown => &this.unknown,
+                        DevSig::Twin(i, k) => &this.twins[i][k as usize % 3],
                     },
                     value: to_out(v),
                 })
